@@ -610,6 +610,17 @@ def multifile_cases():
     for shapes in it.product(FILE_SHAPES, repeat=2):
         yield {"files": list(shapes), "container": "one-zip"}
         yield {"files": list(shapes) + [shapes[0]], "container": "two-zips"}
+    # compressed members: valid documents only (no malformed line), gz and xz, as a LIST of 1-3 files
+    # (list_of_source_files + compression_mode) and, as controls, as a single file (source_file + compression_mode)
+    valid = ["G", "GG", "GGG"]
+    for comp in ("gz", "xz"):
+        for n in (1, 2, 3):
+            for shapes in it.product(valid, repeat=n):
+                yield {"files": list(shapes), "container": comp + "-list"}
+        for shape in valid:
+            yield {"files": [shape], "container": comp + "-single"}
+    for shape in valid:
+        yield {"files": [shape], "container": "zip-single"}
 
 
 def multifile_content(case):
@@ -654,7 +665,31 @@ def read_multifile(case, wall=WALL_SECONDS):
                 fh.write(t)
             paths.append(pth)
         kw = {"list_of_source_files": paths, "input_format": "nt"}
-        if case["container"] != "plain":
+        container = case["container"]
+        if container.split("-")[0] in ("gz", "xz"):
+            import gzip
+            import lzma
+            packed = []
+            for pth in paths:
+                with open(pth, "rb") as fh:
+                    data = fh.read()
+                out = pth + "." + container[:2]
+                with (gzip.open(out, "wb") if container.startswith("gz") else lzma.open(out, "wb", format=lzma.FORMAT_XZ)) as fh:
+                    fh.write(data)
+                os.remove(pth)                                       # only the compressed member is there to be read
+                packed.append(out)
+            kw = {"input_format": "nt", "compression_mode": container[:2]}
+            if container.endswith("-single"):
+                kw["source_file"] = packed[0]
+            else:
+                kw["list_of_source_files"] = packed
+        elif container == "zip-single":
+            zp = os.path.join(d, "single.zip")
+            with zipfile.ZipFile(zp, "w") as z:
+                z.write(paths[0], arcname=os.path.basename(paths[0]))
+            os.remove(paths[0])
+            kw = {"source_file": zp, "input_format": "nt", "compression_mode": "zip"}
+        elif case["container"] != "plain":
             groups = [paths] if case["container"] == "one-zip" else [paths[:1], paths[1:]]
             zips = []
             for zi, members in enumerate(groups):
@@ -680,23 +715,23 @@ def read_multifile(case, wall=WALL_SECONDS):
 def multifile_classify(case, outcome):
     """-> [("multi-file", symptom class, description)]; symptom classes hang | raise:<T> | order | content | error-count."""
     texts, rows, errs_at, bad = multifile_content(case)
-    if outcome[0] in ("hang", "raise") and bad > 0:
-        return []
-    if outcome[0] == "hang":
-        return [("multi-file", "hang", "hang")]
-    if outcome[0] == "raise":
-        return [("multi-file", "raise:" + outcome[1], "raise %s in %s: %s" % (outcome[1], outcome[2], outcome[3][:80]))]
-    seen, errors, yielded, cls = outcome[1]
     if bad > 0:
         return []       # C06 speaks about VALID documents ("counts zero error lines"): files with malformed lines are outside its domain
     # several archives go through MultiZipTriplesYielder, whose totals are a matter of their own
     cat = "multi-zip" if case["container"] == "two-zips" else "multi-file"
+    if case["container"].split("-")[0] in ("gz", "xz") or case["container"] == "zip-single":
+        cat = "multi-file:compressed"
+    if outcome[0] == "hang":
+        return [(cat, "hang", "hang (%s)" % case["container"])]
+    if outcome[0] == "raise":
+        return [(cat, "raise:" + outcome[1], "%s: raise %s in %s: %s" % (case["container"], outcome[1], outcome[2], outcome[3][:80]))]
+    seen, errors, yielded, cls = outcome[1]
     got = [r for (r, e) in seen]
     if got != rows:
         if sorted(map(repr, got)) == sorted(map(repr, rows)):
             return [(cat, "order", "%s yields the triples of the files in another order" % cls)]
-        return [(cat, "content", "%s: %d triples yielded, %d expected; first difference %r"
-                 % (cls, len(got), len(rows), next(((g, e) for g, e in zip(got, rows) if g != e), None)))]
+        return [(cat, "content", "%s (%s): %d triples yielded, %d expected, error_triples=%d; first difference %r"
+                 % (cls, case["container"], len(got), len(rows), errors, next(((g, e) for g, e in zip(got, rows) if g != e), None)))]
     out = []
     during = [e for (r, e) in seen]
     if during != errs_at:
